@@ -57,7 +57,7 @@ def gen_env(rng):
         return None
     if r < 0.16:
         return []
-    pool = [b"A=1", b"AB=2", b"A=", b"=x", b"A==b", b"noequals", b"A=3", b"B=two words", b"C=a,b,c", b"D=\xff\xfe\x01", b"EMPTY=", b"LONGNAME_" + b"n" * 40 + b"=v",
+    pool = [b"NL=line1\nline2\r", b"CR=\ra\n", b"A=1", b"AB=2", b"A=", b"=x", b"A==b", b"noequals", b"A=3", b"B=two words", b"C=a,b,c", b"D=\xff\xfe\x01", b"EMPTY=", b"LONGNAME_" + b"n" * 40 + b"=v",
             b"", b"=", b"==", b"A"]
     env = [rng.choice(pool) for _ in range(rng.choice([1, 2, 3, 5, 9]))]
     if rng.random() < 0.5:
@@ -75,7 +75,7 @@ def gen_env(rng):
 
 
 def env_names(env):
-    names = [b"A", b"AB", b"", b"A=", b"NOPE", b"noequals", b"LOGNAME", b"EMPTY", b"=x", b"B", b"D", b"BIG"]
+    names = [b"A", b"AB", b"", b"A=", b"NOPE", b"noequals", b"LOGNAME", b"EMPTY", b"=x", b"B", b"D", b"BIG", b"NL", b"CR"]
     return names
 
 
@@ -213,6 +213,11 @@ def fixed_states():
         st(clock="1790000000.%d" % us, only="timestamp,timestamp_ms,timestamp_us", sizes=dec_list([256]))
     st(cwd="symlink", env=hexlist([b"A=1"]), uids="1001,1002,1003", only="cwd,env,env_all")
     st(cwd="symlink", only="cwd")
+    # just after a second boundary, time() (coarse clock) still reports the previous second: only the timestamp family is evaluated here
+    # (datetime reads time() by design and is compared in the states without a lag)
+    st(clock="1790000000.500", coarse="4000", only="timestamp,timestamp_ms,timestamp_us", sizes=dec_list([256]))
+    st(clock="1790000000.3999", coarse="4000", only="timestamp,timestamp_ms,timestamp_us", sizes=dec_list([256]))
+    st(env=hexlist([b"NL=line1\nline2\r", b"SUDO_USER=su", b"LOGNAME=lo"]), envnames=hexlist([b"NL"]), only="env,env_all,login")
     st(exec=hexs(b"/bin/prog") + "|" + hexlist([b""]), only="cmdline,filename")            # one empty argument: the command line is empty, not the path
     st(exec=hexs(b"/bin/prog") + "|" + hexlist([b"", b""]), only="cmdline,filename")
     st(uids="1,1,1", stdin="pty:2", race="20000", only="username,tty_username,uid,tty_uid", sizes=dec_list([256]))
@@ -563,6 +568,7 @@ def dist_add(dist, recipe, st):
     inc("utmp", "alternate-utmp-entry" if "utmp" in recipe else "none")
     inc("host", "kept" if recipe.get("host", "keep") == "keep" else "private-uts")
     inc("procfs", ("generated-status " if "procfake" in recipe else "real-status ") + ("generated-cgroup" if "cgtext" in recipe else "real-cgroup"))
+    inc("coarse_clock", "lags" if "coarse" in recipe else "same as the fine clock")
     inc("clock", "real" if recipe.get("clock", "real") == "real" else ("ge-2^31" if ids[12] >= 2 ** 31 else "constructed"))
     tz = [e for e in (st[6].split(",") if st[6] not in ("~", "[]") else []) if unhex(e).startswith(b"TZ=")]
     inc("tz", unhex(tz[0])[3:].decode() if tz else "unset")
@@ -585,6 +591,11 @@ def diagnose(tsv, gen):
                 unk = sorted(set(re.findall(r'F_other "([^"]*)"', gt.get(n, ""))) - set(re.findall(r'F_other "([^"]*)"', rt.get(n, ""))))
                 out.append("tree of '%s' differs from the reference%s%s" % (n, (" (not understood: %s)" % ", ".join(sorted(set(why)))) if why else "",
                                                                            (" (calls outside the modelled set: %s)" % ", ".join(unk)) if unk else ""))
+        calls = lambda text: {m.group(1): m.group(2) for m in re.finditer(r'de_name := "([^"]*)";.*?de_calls := \[(.*?)\]', text, re.S)}
+        rcl, gcl = calls(open(os.path.join(ref, "gen", "Gen_Ds.v")).read()), calls(gen)
+        for n in ("env_all", "cmdline"):
+            if rcl.get(n) != gcl.get(n):
+                out.append("external calls of '%s' read as [%s] (reference [%s])" % (n, gcl.get(n), rcl.get(n)))
         rc = dict(l.split("\t", 1) for l in open(os.path.join(ref, "consts_dstruth.tsv")).read().splitlines() if "\t" in l)
         for l in tsv.splitlines():
             if "\t" in l:
